@@ -2,9 +2,9 @@
 from vlib.tok import f64, s as S, lst
 ID = 'C13'
 FLAVOUR = {'quick': 'plain', 'thorough': 'asan'}
-LEAN_MODULES = ['NixModel.Props.C02Fields', 'NixModel.Gen.Fields', 'NixModel.Props.C13', 'NixModel.Props.C13UnitChecks', 'NixModel.Gen.UnitChecks']
-TECHNIQUE = 'Lean 4 proof (refinement) over a hand-written model + a table translated from the source on every run (unit predicates of the entry points) + differential correspondence (trace validation) with the built library'
-THEOREMS = ['Nix.Fields.accessor_overloads_name_one_field', 'Nix.Fields.every_written_field_is_read', 'Nix.Fields.every_read_field_is_written', 'Nix.Fields.reset_removes_what_the_setter_writes', 'Nix.Fields.getter_has_a_setter', 'Nix.Fields.model_field_names', 'Nix.UnitChecks.entry_points_of_one_unit_agree', 'Nix.UnitChecks.unit_setting_entry_points_check', 'Nix.C13.step_refines', 'Nix.C13.rel_observe', 'Nix.C13.run_invariant',
+LEAN_MODULES = ['NixModel.Props.C13Enums', 'NixModel.Gen.Enums', 'NixModel.Props.C02Fields', 'NixModel.Gen.Fields', 'NixModel.Props.C13', 'NixModel.Props.C13UnitChecks', 'NixModel.Gen.UnitChecks']
+TECHNIQUE = "Lean 4 proof (refinement) over a hand-written model + tables translated from the source on every run (unit predicates of the entry points; attribute names of the accessors; the dimension-kind <-> string conversion is a round trip) + differential correspondence (trace validation) with the built library"
+THEOREMS = ['Nix.Enums.dimension_type_roundtrip', 'Nix.Enums.dimension_type_strings_agree', 'Nix.Enums.link_type_roundtrip', 'Nix.Enums.link_type_strings_agree', 'Nix.Enums.link_type_vector_covers_the_enum', 'Nix.Enums.data_type_roundtrip', 'Nix.Enums.data_type_names_distinct', 'Nix.Fields.accessor_overloads_name_one_field', 'Nix.Fields.every_written_field_is_read', 'Nix.Fields.every_read_field_is_written', 'Nix.Fields.reset_removes_what_the_setter_writes', 'Nix.Fields.getter_has_a_setter', 'Nix.Fields.model_field_names', 'Nix.UnitChecks.entry_points_of_one_unit_agree', 'Nix.UnitChecks.unit_setting_entry_points_check', 'Nix.C13.step_refines', 'Nix.C13.rel_observe', 'Nix.C13.run_invariant',
             'Nix.C13.dims_gapfree_invariant', 'Nix.C13.createGroup_keeps_gapfree', 'Nix.C13.getDimension_defined_iff', 'Nix.C13.dimensions_indices',
             'Nix.C13.append_gets_next_index',
             'Nix.C13.dim_roundtrip_sampled', 'Nix.C13.dim_roundtrip_range', 'Nix.C13.dim_roundtrip_set', 'Nix.C13.dim_roundtrip_frame',
